@@ -15,6 +15,8 @@ pub struct Contact {
     pub listener: String,
     /// everything read on that connection
     pub bytes: Vec<u8>,
+    /// the client's address (TCP listeners)
+    pub peer: String,
 }
 
 pub type Contacts = Arc<Mutex<Vec<Contact>>>;
@@ -25,15 +27,22 @@ pub enum Mode {
     Responder,
     /// reads and never answers
     Silent,
+    /// closes as soon as the connection is accepted
+    CloseAtOnce,
+    /// reads the first bytes, then closes without answering
+    ReadThenClose,
 }
 
-fn register(contacts: &Contacts, name: &str) -> usize {
+fn register(contacts: &Contacts, name: &str, peer: String) -> usize {
     let mut c = contacts.lock().unwrap();
-    c.push(Contact { listener: name.to_string(), bytes: vec![] });
+    c.push(Contact { listener: name.to_string(), bytes: vec![], peer });
     c.len() - 1
 }
 
 fn serve<S: Read + Write>(mut s: S, idx: usize, mode: Mode, contacts: Contacts) {
+    if mode == Mode::CloseAtOnce {
+        return;
+    }
     let mut all: Vec<u8> = vec![];
     let mut parsed = 0usize;
     let mut buf = [0u8; 4096];
@@ -46,6 +55,9 @@ fn serve<S: Read + Write>(mut s: S, idx: usize, mode: Mode, contacts: Contacts) 
         contacts.lock().unwrap()[idx].bytes = all.clone();
         if mode == Mode::Silent {
             continue;
+        }
+        if mode == Mode::ReadThenClose {
+            return;
         }
         let (frames, used) = match msg::split_frames(&all[parsed..]) {
             Ok(x) => x,
@@ -76,7 +88,7 @@ pub fn tcp_listener(addr: &str, name: &str, mode: Mode, contacts: Contacts) -> O
     std::thread::spawn(move || {
         for s in l.incoming().flatten() {
             let _ = s.set_read_timeout(Some(Duration::from_secs(20)));
-            let idx = register(&contacts, &name);
+            let idx = register(&contacts, &name, s.peer_addr().map(|a| a.to_string()).unwrap_or_default());
             let c = contacts.clone();
             std::thread::spawn(move || serve(s, idx, mode, c));
         }
@@ -94,7 +106,7 @@ pub fn unix_listener(path: &str, name: &str, mode: Mode, contacts: Contacts) -> 
     std::thread::spawn(move || {
         for s in l.incoming().flatten() {
             let _ = s.set_read_timeout(Some(Duration::from_secs(20)));
-            let idx = register(&contacts, &name);
+            let idx = register(&contacts, &name, String::new());
             let c = contacts.clone();
             std::thread::spawn(move || serve(s, idx, mode, c));
         }
@@ -105,7 +117,7 @@ pub fn unix_listener(path: &str, name: &str, mode: Mode, contacts: Contacts) -> 
 /// serve one pre-connected stream (the other end is handed to the client through std_stream);
 /// registered before this returns
 pub fn serve_stream<S: Read + Write + Send + 'static>(s: S, name: &str, mode: Mode, contacts: Contacts) {
-    let idx = register(&contacts, name);
+    let idx = register(&contacts, name, String::new());
     std::thread::spawn(move || serve(s, idx, mode, contacts));
 }
 
@@ -118,42 +130,60 @@ pub enum FenceTarget {
 }
 
 /// Wait until every connection made to the listed listeners so far has been registered: one
-/// marker connection per listener (registration is in accept order), recognisable by the bytes
-/// it sends; returns when all markers have been recorded.
+/// marker connection per listener (registration is in accept order), recognised by the
+/// client's address (TCP) or by the bytes it sends (Unix); recognised markers are relabelled
+/// "fence" so that nobody counts them as contacts.
 pub fn fence(targets: &[FenceTarget], contacts: &Contacts) {
-    let before = contacts.lock().unwrap().iter().filter(|c| c.bytes.starts_with(FENCE)).count();
-    let mut keep: Vec<Box<dyn std::any::Any>> = vec![];
-    let mut sent = 0usize;
     for t in targets {
+        let t0 = std::time::Instant::now();
+        // (client ports are reused over a run: only contacts registered from now on can be the marker)
+        let from = contacts.lock().unwrap().len();
         match t {
             FenceTarget::Tcp(a) => {
-                if let Ok(mut s) = std::net::TcpStream::connect(a) {
-                    if s.write_all(FENCE).is_ok() {
-                        sent += 1;
+                let s = match std::net::TcpStream::connect(a) {
+                    Ok(s) => s,
+                    Err(_) => continue,
+                };
+                let me = s.local_addr().map(|x| x.to_string()).unwrap_or_default();
+                loop {
+                    {
+                        let mut c = contacts.lock().unwrap();
+                        if let Some(x) = c.iter_mut().skip(from).find(|x| x.peer == me) {
+                            x.listener = "fence".into();
+                            break;
+                        }
                     }
-                    keep.push(Box::new(s));
+                    if t0.elapsed() > Duration::from_secs(10) {
+                        panic!("verif-machinery: the fence connection to {} was not registered within 10 s", a);
+                    }
+                    std::thread::sleep(Duration::from_micros(100));
                 }
+                drop(s);
             }
             FenceTarget::Unix(p) => {
-                if let Ok(mut s) = std::os::unix::net::UnixStream::connect(p) {
-                    if s.write_all(FENCE).is_ok() {
-                        sent += 1;
-                    }
-                    keep.push(Box::new(s));
+                let mut s = match std::os::unix::net::UnixStream::connect(p) {
+                    Ok(s) => s,
+                    Err(_) => continue,
+                };
+                if s.write_all(FENCE).is_err() {
+                    continue;
                 }
+                loop {
+                    {
+                        let mut c = contacts.lock().unwrap();
+                        if let Some(x) = c.iter_mut().skip(from).find(|x| x.bytes.starts_with(FENCE)) {
+                            x.listener = "fence".into();
+                            break;
+                        }
+                    }
+                    if t0.elapsed() > Duration::from_secs(10) {
+                        panic!("verif-machinery: the fence connection to {} was not registered within 10 s", p);
+                    }
+                    std::thread::sleep(Duration::from_micros(100));
+                }
+                drop(s);
             }
         }
-    }
-    let t0 = std::time::Instant::now();
-    loop {
-        let now = contacts.lock().unwrap().iter().filter(|c| c.bytes.starts_with(FENCE)).count();
-        if now >= before + sent {
-            break;
-        }
-        if t0.elapsed() > Duration::from_secs(10) {
-            panic!("verif-machinery: fence connections were not registered within 10 s");
-        }
-        std::thread::sleep(Duration::from_micros(200));
     }
 }
 
